@@ -4,9 +4,9 @@ package main
 // raw comparison of the six custom stores and lock-step continuation on a shadow replica.
 
 import (
-	"github.com/SaoNetwork/sao/verifrt"
 	"encoding/json"
 	"fmt"
+	"github.com/SaoNetwork/sao/verifrt"
 	"sort"
 
 	saoapp "github.com/SaoNetwork/sao/app"
@@ -15,11 +15,11 @@ import (
 )
 
 type shadow struct {
-	r      *Replica
-	left   int
-	since  int64
-	dead   bool
-	ignore map[string]bool
+	r       *Replica
+	left    int
+	since   int64
+	dead    bool
+	ignore  map[string]bool
 	globals map[string]any // the shadow process's package-level variables
 }
 
